@@ -261,7 +261,7 @@ var intKinds = []string{"int", "int8", "int16", "int32", "int64", "uint", "uint8
 
 func (g *qgen) numLit(frac bool) string {
 	if frac {
-		return g.pick([]string{"0.5", "1.5", "2.5", "3.5", "-3.5", "-0.5", "0.1", "0.3", "0.01", "7.25", "1e30", "-1e30", "2147483648", "4294967296", "9007199254740992", "3", "-3", "0", "10", "100", "1000000"})
+		return g.pick([]string{"0.5", "1.5", "2.5", "3.5", "-3.5", "-0.5", "0.1", "0.3", "0.01", "7.25", "1e30", "-1e30", "2147483648", "4294967296", "9007199254740992", "9223372036854775808", "-9223372036854775808", "18446744073709551616", "3", "-3", "0", "10", "100", "1000000"})
 	}
 	return g.pick([]string{"0", "1", "2", "3", "4", "5", "6", "7", "10", "100", "127", "128", "255", "256", "-1", "-2", "-3", "-128", "-129", "32767", "65535", "2147483647", "2147483648", "4294967295", "9007199254740991"})
 }
